@@ -1,12 +1,159 @@
-(* C18 -- commands go to the chip, core and application the caller named. *)
+(* C18 -- Commands go to the chip, core and application the caller named.
+
+   Property theorems only; each is closed by `exact` of a lemma of Proofs/Context*.v.
+   Model: Model/Context.v (follows rig/utils/contexts.py and the decorated methods of MachineController /
+   BMPController); the signature list [all_signatures], the command numbers and the SpiNN-5 table come
+   from Generated/GenSignatures.v, spinn5_local_eth_coord from Generated/GenCtxGeometry.v -- both
+   regenerated from /repo on every run, so every statement below is re-checked against the methods that
+   exist now.  Spec: Spec/Context.v ([spec_value] = explicit, else innermost context that sets it, else
+   default; [declared_wires] = what each method's commands must carry). *)
 From Coq Require Import ZArith List Bool String.
-Require Import Rig.Model.Base Rig.Generated.GenSignatures Rig.Model.Context Rig.Spec.Context Rig.Proofs.Context.
+Require Import Rig.Model.Base Rig.Generated.GenSignatures Rig.Generated.GenCtxGeometry Rig.Model.Context
+               Rig.Spec.Context Rig.Proofs.Context Rig.Proofs.ContextBlocks Rig.Proofs.ContextWire
+               Rig.Proofs.ContextStop.
 Import ListNotations.
 Open Scope string_scope.
 Open Scope list_scope.
 Open Scope Z_scope.
 
-Theorem C18_every_signature_modelled :
-  forallb (fun sg => match body_of (sg_cls sg) (sg_name sg) with Some _ => true | None => false end)
-          all_signatures = true.
-Proof. exact every_signature_has_a_body. Qed.
+(* ---- resolve_precedence.  For every signature with distinct parameter names, every stack of contexts
+   (any nesting, any subsets of names), every way of passing arguments: whatever the wrapped function
+   receives for a name is the value given explicitly, else that of the innermost context that sets it,
+   else the method's default. *)
+Theorem C18_resolve_precedence :
+  forall sg s pos kw e, sig_wf sg -> resolve sg s pos kw = Some e ->
+    forall n v, sassoc n (e_args e) = Some v -> spec_value sg s pos kw n = Some (DVal v).
+Proof. exact resolve_precedence. Qed.
+
+(* ... and every argument of the method does receive a value *)
+Theorem C18_resolve_total :
+  forall sg s pos kw e, sig_wf sg -> resolve sg s pos kw = Some e ->
+    forall n, is_arg sg n = true -> exists v, sassoc n (e_args e) = Some v.
+Proof. exact resolve_total. Qed.
+
+(* the merged dictionary the code builds (oldest to newest) is the innermost-first lookup *)
+Theorem C18_context_arguments_innermost :
+  forall n s, sassoc n (merge_stack s) = stack_lookup n s.
+Proof. exact sassoc_merge_stack. Qed.
+
+(* the guard of the two theorems above holds of every generated signature *)
+Theorem C18_signatures_wf : Forall sig_wf all_signatures.
+Proof. exact all_signatures_wf. Qed.
+
+(* ---- required_rejected_before_send.  A call lacking a required argument (not explicit, set by no
+   context, no default) is a TypeError and the list of commands sent is empty -- for every method. *)
+Theorem C18_required_rejected_before_send :
+  forall fuel c cls m s pos kw sg n,
+    sig_wf sg -> find_sig cls m = Some sg -> spec_value sg s pos kw n = Some DRequired ->
+    call (S fuel) c cls m s pos kw = ([], Some TypeErr).
+Proof. exact required_rejected_before_send. Qed.
+
+(* ---- exit_restores.  Whatever a block contains (calls, nested blocks, update_current_context, raise at
+   any depth, try) and however it is left, the stack afterwards is exactly the stack before. *)
+Theorem C18_exit_restores_with :
+  forall c cls kw blk s, st (run_op c cls (OWith kw blk) s) = s.
+Proof. exact exit_restores_with. Qed.
+
+Theorem C18_exit_restores_application :
+  forall c cls pos kw blk s, st (run_op c cls (OApp pos kw blk) s) = s.
+Proof. exact exit_restores_app. Qed.
+
+(* Leaving an application block: the block's own events, then exactly one stop event -- send_signal("stop")
+   resolved while the block's context (fr) is still the innermost -- then the pop. *)
+Theorem C18_application_exit :
+  forall c cls pos kw blk s sg e a,
+    find_sig cls "application" = Some sg -> resolve sg s pos kw = Some e ->
+    sassoc "app_id" (e_args e) = Some a ->
+    exists evb fr rb,
+      run_ops c cls blk (s ++ [mkdict [("app_id", a)]]) = (evb, s ++ [fr], rb)
+      /\ (no_update_here blk -> fr = mkdict [("app_id", a)])
+      /\ run_op c cls (OApp pos kw blk) s
+         = (evb ++ [EvStop (call FUEL c cls "send_signal" (s ++ [fr]) [stop_signal] [])], s,
+            rb || has_err (call FUEL c cls "send_signal" (s ++ [fr]) [stop_signal] [])).
+Proof. exact application_exit. Qed.
+
+(* ... and that stop event is one signal command, broadcast, carrying the stop signal and the block's
+   application id (a: the id application() resolved), whether the block ended normally or by exception (rb). *)
+Theorem C18_application_stop :
+  forall c pos kw blk s sg e a z,
+    find_sig "MC" "application" = Some sg -> resolve sg s pos kw = Some e ->
+    sassoc "app_id" (e_args e) = Some a -> as_int a = Some z -> no_update_here blk ->
+    exists evb rb k,
+      run_ops c "MC" blk (s ++ [mkdict [("app_id", a)]]) = (evb, s ++ [mkdict [("app_id", a)]], rb)
+      /\ chip_connection_ok c (VInt 255) (VInt 255) k
+      /\ run_op c "MC" (OApp pos kw blk) s = (evb ++ [EvStop ([stop_wire k a], None)], s, rb).
+Proof. exact application_stop. Qed.
+
+(* ---- connection_choice.  MachineController: the connection of the board holding the target when the
+   geometry is known and that board's Ethernet chip has a connection, else the initial connection (0).
+   BMPController: the board's own connection, else the frame's; if neither exists nothing is sent. *)
+Theorem C18_connection_choice_chip :
+  forall c x y k, mc_get_connection c x y = Some k -> chip_connection_ok c x y k.
+Proof. exact mc_connection_choice. Qed.
+
+Theorem C18_connection_choice_bmp :
+  forall c a b d k, bmp_get_connection c a b d = Some k -> bmp_connection_ok c a b d k.
+Proof. exact bmp_connection_choice. Qed.
+
+(* ---- wire_carries_resolved, for EVERY method of the generated signature list.  Whatever a call of the
+   method sends (ws, with final error e), command by command: the destination (x, y, p), the command number
+   and sub-command, the words carrying the application id / board mask are the values [spec_value] gives
+   (or the stated constants), and the connection is the one connection_choice prescribes; on success all
+   prescribed commands were sent; the model's recursion bound is never hit.  Calls between decorated
+   methods are resolved again, as in the code. *)
+Theorem C18_wire_carries_resolved :
+  forall cls m sg, find_sig cls m = Some sg ->
+    exists sws, declared_wires cls m = Some sws /\
+      forall c s pos kw ws e,
+        call FUEL c cls m s pos kw = (ws, e) -> wires_den (MkCC c cls sg s pos kw) sws ws e.
+Proof. exact wire_carries_resolved. Qed.
+
+(* a method added to (or renamed in) the controllers appears in the generated list and must have a body in
+   the model and a prescription, or this fails *)
+Theorem C18_every_signature_covered :
+  Forall (fun sg => find_sig (sg_cls sg) (sg_name sg) <> None
+                    /\ declared_wires (sg_cls sg) (sg_name sg) <> None) all_signatures.
+Proof. exact every_signature_covered. Qed.
+
+Theorem C18_every_signature_checked :
+  forallb (fun sg => chk_top 5 (sg_cls sg) (sg_name sg)) all_signatures = true.
+Proof. exact all_methods_checked. Qed.
+
+(* ---- the hypotheses are satisfiable / the statements are not vacuous *)
+Example C18_precedence_instance :
+  exists sg e, find_sig "MC" "read" = Some sg /\ sig_wf sg
+    /\ resolve sg ex_stack [VTok 1; VInt 8] [("y", VInt 7)] = Some e
+    /\ sassoc "x" (e_args e) = Some (VInt 9) /\ sassoc "y" (e_args e) = Some (VInt 7)
+    /\ sassoc "p" (e_args e) = Some (VInt 3)
+    /\ call FUEL ex_ctl "MC" "read" ex_stack [VTok 1; VInt 8] [("y", VInt 7)]
+       = ([MkWire 2 1 (VInt 9) (VInt 7) (VInt 3) VNone [] []], None).
+Proof. exact ex_precedence_instance. Qed.
+
+Example C18_required_instance :
+  exists sg, find_sig "MC" "read" = Some sg
+    /\ spec_value sg ex_stack [VTok 1; VInt 8] [] "y" = Some DRequired
+    /\ call FUEL ex_ctl "MC" "read" ex_stack [VTok 1; VInt 8] [] = ([], Some TypeErr).
+Proof. exact ex_required_instance. Qed.
+
+Example C18_application_instance :
+  exists sg e,
+    find_sig "MC" "application" = Some sg /\ resolve sg ex_stack [VInt 17] [] = Some e
+    /\ sassoc "app_id" (e_args e) = Some (VInt 17) /\ as_int (VInt 17) = Some 17
+    /\ no_update_here ex_block
+    /\ run_op ex_ctl "MC" (OApp [VInt 17] [] ex_block) ex_stack
+       = ([EvCall "sdram_alloc" ([MkWire 1 0 (VInt 1) (VInt 2) (VInt 0) (VInt SCP_alloc_free)
+                                         [(0%nat, 0, 255, Alloc_alloc_sdram)] [(FByte, 0%nat, 8, VInt 17)]], None);
+           EvCall "sdram_alloc" ([MkWire 1 0 (VInt 3) (VInt 2) (VInt 0) (VInt SCP_alloc_free)
+                                         [(0%nat, 0, 255, Alloc_alloc_sdram)] [(FByte, 0%nat, 8, VInt 30)]], None);
+           EvStop ([stop_wire 3 (VInt 17)], None)],
+          ex_stack, true).
+Proof. exact ex_application_instance. Qed.
+
+Example C18_bmp_instance :
+  call FUEL ex_ctl "BMP" "read_adc" [[("cabinet", VInt 0); ("frame", VInt 0); ("board", VInt 0)]] [] [("board", VInt 2)]
+  = ([MkWire 1 0 (VInt 0) (VInt 0) (VInt 2) (VInt SCP_bmp_info) [] []], None)
+  /\ call FUEL ex_ctl "BMP" "read_adc" [[("cabinet", VInt 0); ("frame", VInt 0); ("board", VInt 0)]] [] [("board", VInt 1)]
+  = ([MkWire 0 0 (VInt 0) (VInt 0) (VInt 1) (VInt SCP_bmp_info) [] []], None)
+  /\ call FUEL ex_ctl "BMP" "read_adc" [[("cabinet", VInt 0); ("frame", VInt 0); ("board", VInt 0)]] [VInt 1] []
+  = ([], Some AssertErr).
+Proof. exact ex_bmp_instance. Qed.
